@@ -2,6 +2,7 @@
 package c02
 
 import (
+	"iter"
 	"fmt"
 	"math"
 	"math/rand"
@@ -126,7 +127,7 @@ func ordAPI[K interface{ ~int | ~string | ~float64 }](s *listz.SkipList[K, int])
 			seq := s.All()
 			n := 0
 			seq(func(K, int) bool { n++; return n < 2 }) // a first, interrupted pass over the same sequence value
-			seq(f)
+			nestedAll(seq, s.All, s.Range, f)
 		},
 		RangeWithStart: s.RangeWithStart, RangeWithRange: s.RangeWithRange,
 	}
@@ -164,7 +165,7 @@ func cmpAPI(s *listz.SkipListWithCmp[int, int], cmp func(a, b int) int) api[int]
 			seq := s.All()
 			n := 0
 			seq(func(int, int) bool { n++; return n < 2 })
-			seq(f)
+			nestedAll(seq, s.All, s.Range, f)
 		},
 		RangeWithStart: s.RangeWithStart, RangeWithRange: s.RangeWithRange,
 	}
@@ -258,7 +259,46 @@ func seq(n int) []int {
 	return s
 }
 
+// nestedErr is set by the API wrappers when an enumeration started inside another enumeration's callback
+// disagrees with the outer one (several enumerations of an unmodified list may be alive at the same time).
+var nestedErr error
+
+// nestedAll runs seq(f); from inside the callback of the second element it runs two complete inner enumerations
+// (a fresh All() value and Range) and compares them with the outer one afterwards.
+func nestedAll[K comparable](seq iter.Seq2[K, int], fresh func() iter.Seq2[K, int], rng func(func(K, int) bool), f func(K, int) bool) {
+	type kv struct {
+		k K
+		v int
+	}
+	var outer, in1, in2 []kv
+	stopped := false
+	seq(func(k K, v int) bool {
+		outer = append(outer, kv{k, v})
+		if len(outer) == 2 {
+			fresh()(func(k K, v int) bool { in1 = append(in1, kv{k, v}); return true })
+			rng(func(k K, v int) bool { in2 = append(in2, kv{k, v}); return true })
+		}
+		if !f(k, v) {
+			stopped = true
+			return false
+		}
+		return true
+	})
+	if len(outer) >= 2 && !stopped && (fmt.Sprint(outer) != fmt.Sprint(in1) || fmt.Sprint(outer) != fmt.Sprint(in2)) && nestedErr == nil {
+		nestedErr = fmt.Errorf("All() with enumerations started inside its callback: outer All yields %v, inner All %v, inner Range %v", outer, in1, in2)
+	}
+}
+
 func runSkip(c skipCase, r *pb.Rec) error {
+	nestedErr = nil
+	err := runSkip0(c, r)
+	if nestedErr != nil {
+		return nestedErr
+	}
+	return err
+}
+
+func runSkip0(c skipCase, r *pb.Rec) error {
 	if c.N < 1 || c.N > 64 {
 		return nil
 	}
